@@ -181,3 +181,14 @@ class OptimizeResult(dict):
             dict.__setitem__(self, key, val)
         else:
             dict.__setitem__(self, key, copy.deepcopy(val))
+
+    def update(self, *args, **kwargs):
+        # dict.update bypasses __setitem__: route through it so that unknown
+        # keys are rejected and values are copied
+        for key, val in dict(*args, **kwargs).items():
+            self[key] = val
+
+    def setdefault(self, key, default=None):
+        if key not in self:
+            self[key] = default
+        return self[key]
